@@ -668,6 +668,10 @@ func exprToVertex(x adt.Expr) *adt.Vertex {
 
 func newChildValue(o *structValue, i int) Value {
 	arc := o.at(i)
+	if arc.Status() == 0 || arc.BaseValue == nil {
+		// The arc of a cyclic structure may not have been evaluated yet.
+		arc.Finalize(o.ctx)
+	}
 	return makeValue(o.v.idx, arc, linkParent(o.v.parent_, o.v.v, arc))
 }
 
